@@ -620,7 +620,7 @@ func c19LateRun(c *Ctx) {
 
 func init() {
 	addCheck(&Check{ID: "C19", Level: "model_checking", Collapse: true,
-		Rule:   "explicit-state BFS by replay TO A FIXPOINT over resolution outcomes {failure, success with every non-empty subset of 3 (thorough 4) addresses, in two answer orders; the universe contains an address that is a textual suffix of another and one that has another as a prefix} for one host name (state = resolver addresses x consecutive failures x rotation list and cursor x scripted outcome: finite), for udp and tcp backends and for a successful / failed initial resolution; and to depth 4 (thorough 5) for two host names with disjoint address universes feeding one rotation; the same again for backend lists that end with a static entry of the OTHER transport on another port (udp host name to a fixpoint, tcp and two host names to depth 4 / 3), and for a host name listed under both transports with the same port (depth 3-4; tracked finding, the search continues past its violating states), for one host name feeding the rotations of TWO listens entries (depth 3-4), and for two such entries of which the second cannot open its backend sockets (depth 3); the real periodic goroutine is driven by clock steps of one period and the world runs to quiescence between steps; the last step of every history happens with a transaction in flight (a request handed to a backend that has answered 100; its late 180 and 200 arrive after the step); after every step: for every rotation 2k+1 dispatches must reach exactly the resolved set and every resolved address is a member exactly once per configured transport, the proxy's attribution index equals it, a fabricated response from every address of the universe binds a dialog iff the address is a current backend, sockets / connections of vanished backends are closed; non-trivial = history longer than one outcome",
+		Rule:   "explicit-state BFS by replay TO A FIXPOINT over resolution outcomes {failure, success with every non-empty subset of 3 (thorough 4) addresses, in two answer orders; the universe contains an address that is a textual suffix of another and one that has another as a prefix} for one host name (state = resolver addresses x consecutive failures x rotation list and cursor x scripted outcome: finite), for udp and tcp backends and for a successful / failed initial resolution; and to depth 4 (thorough 5) for two host names with disjoint address universes feeding one rotation; the same again for backend lists that end with a static entry of the OTHER transport on another port (udp host name to a fixpoint, tcp and two host names to depth 4 / 3), and for a host name listed under both transports with the same port (depth 3-4; tracked finding, the search continues past its violating states), for one host name feeding the rotations of TWO listens entries (depth 3-4), and for two such entries of which the second cannot open its backend sockets (depth 3); the real periodic goroutine is driven by clock steps of one period and the world runs to quiescence between steps; the last step of every history happens with a transaction in flight (a request handed to a backend that has answered 100; its late 180 and 200 arrive after the step); after every step: for every rotation 2k+1 dispatches must reach exactly the resolved set and every resolved address is a member exactly once per configured transport, the proxy's attribution index equals it, a fabricated response from every address of the universe binds a dialog iff the address is a current backend, sockets / connections of vanished backends are closed; plus a schedule search (all executions with <=3, thorough <=4 deviations) over a second rotation that registers for the name at the moment a changed answer (shrink / grow / swap) is due: two periods later both rotations hold exactly the resolved set; non-trivial = history longer than one outcome",
 		Assume: []string{"a successful lookup never returns an empty list (as net.LookupIP)", "overlapping address sets of two host names are outside the stated domain"},
 		Run:    func(c *Ctx) { c19Run(c); c19LateRun(c) },
 		Replay: func(c *Ctx, raw json.RawMessage) string {
